@@ -21,6 +21,7 @@ type Env struct {
 	inOld   bool
 	recv    *Val
 	errs    []string
+	patterns []string
 }
 
 func (e *Env) state() *State {
@@ -174,7 +175,11 @@ func (e *Env) eval(x Expr) Val {
 				}
 			}
 			es := strings.TrimSuffix(strings.TrimPrefix(b.S, "(Slice "), ")")
-			return Val{S: es, T: "(select (s_arr " + b.T + ") " + i.T + ")", Typ: et}
+			sel := "(select (s_arr " + b.T + ") " + i.T + ")"
+			if strings.HasPrefix(i.T, "qv!") && !strings.Contains(b.T, "qv!") {
+				e.patterns = append(e.patterns, sel) // trigger candidate for the enclosing quantifier
+			}
+			return Val{S: es, T: sel, Typ: et}
 		case strings.HasPrefix(b.S, "(Array"):
 			return Val{S: arrayElemSort(b.S), T: "(select " + b.T + " " + i.T + ")"}
 		case b.Typ != nil:
@@ -231,7 +236,22 @@ func (e *Env) eval(x Expr) Val {
 			e.vars[qv.Name] = Val{S: srt, T: nm, Typ: typ}
 			binds = append(binds, "("+nm+" "+srt+")")
 		}
+		savedPats := e.patterns
+		e.patterns = nil
 		body := e.eval(n.Body)
+		pats := e.patterns
+		e.patterns = savedPats
+		if len(n.Vars) == 1 && len(pats) > 0 {
+			seen := map[string]bool{}
+			ann := ""
+			for _, p := range pats {
+				if !seen[p] {
+					seen[p] = true
+					ann += " :pattern (" + p + ")"
+				}
+			}
+			body.T = "(! " + body.T + ann + ")"
+		}
 		for k, v := range saved {
 			if v == nil {
 				delete(e.vars, k)
@@ -290,6 +310,13 @@ func (e *Env) typeByName(t string) (string, types.Type) {
 	case "iface":
 		return "Iface", types.NewInterfaceType(nil, nil)
 	}
+	if strings.HasPrefix(t, "*") {
+		_, et := e.typeByName(t[1:])
+		if et == nil {
+			return "Int", nil
+		}
+		return "Int", types.NewPointer(et)
+	}
 	if strings.HasPrefix(t, "[]") {
 		s, et := e.typeByName(t[2:])
 		var tt types.Type
@@ -327,6 +354,23 @@ func (e *Env) ident(name string) Val {
 	if e.lookup != nil {
 		if v, ok := e.lookup(name); ok {
 			return v
+		}
+	}
+	if m := mapGhostRe.FindStringSubmatch(name); m != nil {
+		k, _ := strconv.Atoi(m[2])
+		if k >= 1 && k <= len(fc.mapRanges) {
+			mr := fc.mapRanges[k-1]
+			switch m[1] {
+			case "seq":
+				return Val{S: "(Array Int " + mr.keySort + ")", T: mr.seq}
+			case "n":
+				return intVal(mr.n)
+			case "pos":
+				if t, ok := e.state().ghosts[mr.ghost]; ok {
+					return intVal(t)
+				}
+				return intVal("0")
+			}
 		}
 	}
 	if g := fc.W.Contracts.Ghosts[name]; g != nil {
@@ -375,6 +419,11 @@ func (e *Env) pkgObject(pkgPath, name string) (Val, bool) {
 		// read-only globals with known initialisers
 		if v, ok := fc.globalConst(pkgPath, name, obj.Type()); ok {
 			return v, true
+		}
+		if sp := fc.W.SPkgs[pkgPath]; sp != nil {
+			if g := sp.Var(name); g != nil {
+				return fc.loadGlobal(g, obj.Type()), true
+			}
 		}
 	}
 	return Val{}, false
@@ -660,6 +709,19 @@ func (e *Env) callExpr(n *ECall) Val {
 				}
 			}
 			return e.fail("store(ctx): receiver has no storeService/storeKey field")
+		case "inmap":
+			m := argv(0)
+			if m.Typ == nil {
+				return e.fail("inmap: untyped map")
+			}
+			mt, ok := m.Typ.Underlying().(*types.Map)
+			if !ok {
+				return e.fail("inmap: not a map")
+			}
+			ms := fc.mapSort(mt)
+			cur := "(select " + fc.heapOf(e.state(), ms) + " " + m.T + ")"
+			k := e.coerce(argv(1), mt.Key())
+			return boolVal(and(not(eq(m.T, "0")), "(select (m_dom "+cur+") "+k.T+")"))
 		case "box":
 			v := argv(0)
 			if v.Typ == nil || v.S == "Iface" {
@@ -1005,8 +1067,10 @@ func (e *Env) specCall(sf *SpecFunc, argExprs []Expr) Val {
 	rs, rt := sub.typeByName(sf.Ret)
 	first := !fc.B.declared["fun:spec_"+sf.Name]
 	fc.B.DeclFun("spec_"+sf.Name, sorts, rs)
-	if first {
-		// the axioms of an uninterpreted spec function are assumptions (listed in the evidence)
+	if first && fc.specAxiomsRelevant(sf.Name) {
+		// the axioms of an uninterpreted spec function are assumptions (listed in the evidence); they are
+		// only emitted for functions whose own contract mentions the spec function (they are recursive
+		// definitions and would only cause matching loops elsewhere — omitting assumptions is sound)
 		for _, ax := range sf.Axioms {
 			st0 := State{worlds: "Worlds0", heaps: map[string]string{}, ghosts: map[string]string{}, calls: map[string]string{}}
 			aenv := &Env{fc: fc, vars: map[string]Val{}, cur: &st0, old: &st0, pkgPath: sf.PkgPath}
